@@ -8,6 +8,7 @@ import (
 	"strings"
 
 	"github.com/grindlemire/go-lucene/verif/core"
+	"github.com/grindlemire/go-lucene/verif/enum"
 	"github.com/grindlemire/go-lucene/verif/qast"
 )
 
@@ -91,9 +92,15 @@ func init() {
 					us = append(us, core.Unit{Name: fmt.Sprintf("chainjuxt|%d|%d|%d", k, i, j), Weight: 2})
 				}
 			}
+			// token-level differential: every token sequence over a small alphabet, with AND written
+			// into every core gap, against the sequence itself (reaches juxtapositions nested inside
+			// groups, several pending implicit ANDs, ...)
+			for _, u := range enum.SeqUnits("tok", "juxt", len(enum.Alphabets["juxt"]), 7, 2) {
+				us = append(us, core.Unit{Name: u, Weight: 2})
+			}
 			if tier == "thorough" {
 				add(qast.TreeUnits("tree|two|3|juxt", len(treeSet("two2")), 64), 4)
-				add(qast.TreeUnits("tree|three|3|juxt", len(treeSet("three2")), 120), 5)
+				// (TREE(L_3,3) with all juxtaposition subsets does not fit the time budget: 2.9e7 trees x subsets)
 				add([]string{"spine|6"}, 4)
 			} else {
 				add([]string{"spine|5"}, 2)
@@ -103,7 +110,7 @@ func init() {
 		Run:    c07Run,
 		Eval:   c07Eval,
 		Shrink: c07Shrink,
-		Rule: "TREE(L_full,2) (thorough: + TREE(L_2,3), TREE(L_3,3)), SPINE(m) over 2 leaves and every unary chain of length <= 3/4 as left operand of a juxtaposition in five contexts; for every tree every non-empty subset of its eligible AND nodes written as juxtaposition " +
+		Rule: "TREE(L_full,2) (thorough: + TREE(L_2,3)), SPINE(m) over 2 leaves and every unary chain of length <= 3/4 as left operand of a juxtaposition in five contexts; for every tree every non-empty subset of its eligible AND nodes written as juxtaposition " +
 			"(all subsets up to 4 AND nodes; beyond: all singletons, all co-singletons, all pairs and the full set); non-trivial = both texts parse; distinct = distinct trees",
 		Assumptions: []string{
 			"a gap is core iff the left operand ends and the right operand begins with a term token; other gaps may be rejected (counted as rejected_noncore)",
@@ -111,7 +118,7 @@ func init() {
 		},
 		Bounds: func(tier string) map[string]any {
 			if tier == "thorough" {
-				return map[string]any{"tree_full_depth": 2, "tree_2leaf_depth": 3, "tree_3leaf_depth": 3, "spine": 6}
+				return map[string]any{"tree_full_depth": 2, "tree_2leaf_depth": 3, "spine": 6}
 			}
 			return map[string]any{"tree_full_depth": 2, "spine": 5}
 		},
@@ -207,6 +214,25 @@ func c07Run(w *core.Worker, tier, unit string) {
 		}
 	}
 	switch {
+	case strings.HasPrefix(unit, "tok|"):
+		alpha := enum.UnitAlphabet(unit)
+		enum.EnumSeqUnit(unit, len(alpha), func(seq []int) {
+			var toks, expl []string
+			gaps := 0
+			for i, s := range seq {
+				t := alpha[s]
+				if i > 0 && isTermTok(toks[i-1]) && isTermTok(t) {
+					expl = append(expl, "AND")
+					gaps++
+				}
+				toks = append(toks, t)
+				expl = append(expl, t)
+			}
+			if gaps == 0 {
+				return
+			}
+			w.Do(core.Case{Kind: "core", In: core.BStr(strings.Join(toks, " ")), In2: core.BStr(strings.Join(expl, " ")), Aux: "tok"})
+		})
 	case strings.HasPrefix(unit, "tree|"):
 		leaves, sub := treeUnitSets(unit)
 		_, eu := stripTreeUnit(unit)
@@ -266,6 +292,27 @@ func c07Eval(c core.Case) (res core.Result) {
 }
 
 func c07Shrink(c core.Case) []core.Case {
+	if string(c.Aux) == "tok" {
+		// token-level case: shrink the juxtaposed text, rebuild the explicit one
+		var out []core.Case
+		for _, d := range shrinkTokens(core.Case{Kind: c.Kind, In: c.In}) {
+			toks := splitTokens(string(d.In))
+			var expl []string
+			gaps := 0
+			for i, t := range toks {
+				if i > 0 && isTermTok(toks[i-1]) && isTermTok(t) {
+					expl = append(expl, "AND")
+					gaps++
+				}
+				expl = append(expl, t)
+			}
+			if gaps == 0 {
+				continue
+			}
+			out = append(out, core.Case{Kind: c.Kind, In: d.In, In2: core.BStr(strings.Join(expl, " ")), Aux: "tok"})
+		}
+		return out
+	}
 	t, err := qast.Decode(c.Tree)
 	if err != nil {
 		return nil
